@@ -11,6 +11,8 @@ use math::{fields::f64::BaseElement, FieldElement, StarkField};
 
 use crate::model::no_fmt;
 
+pub mod jive;
+
 const M: u64 = 0xFFFF_FFFF_0000_0001;
 
 pub static mut PERM_CALLS: usize = 0;
